@@ -1187,3 +1187,107 @@ func lockFacts(pkgs map[string]*pkgInfo) string {
 	}
 	return b.String()
 }
+
+// ---------------------------------------------------------------------------------------
+// stage 6 (d): where package client dials, and what it passes as the address.
+//
+//	dial_sites_client    every call x.Dial / x.DialContext / x.DialTimeout: (function, callee, address argument)
+//	server_writes_client every assignment to a cfg.Server field: (function, right-hand side)
+//	dial_seq_client      for the function holding the hasPort if-statement, in source order:
+//	                     ("addr", condition) for that statement, ("dial", callee) for a dial call,
+//	                     ("call", callee) for a call of a function of the package that contains a dial call
+func dialFacts(pkgs map[string]*pkgInfo) string {
+	var b strings.Builder
+	b.WriteString("(* GENERATED from the Go source by /verif/translator (go2coq2.go: dialFacts) on every check run — do not edit.\n")
+	b.WriteString("   dial_sites_client: every call of a method Dial / DialContext / DialTimeout in package client:\n")
+	b.WriteString("   (function, callee, address argument = the last argument).  server_writes_client: every assignment\n")
+	b.WriteString("   to a field path ending in cfg.Server: (function, right-hand side).  dial_seq_client: for the function\n")
+	b.WriteString("   with the top-level if-statement on hasPort, in source order: that statement (addr, condition), the dial\n")
+	b.WriteString("   calls (dial, callee) and the calls of package functions that contain a dial call (call, callee). *)\n")
+	b.WriteString("From Coq Require Import String List.\nImport ListNotations.\nLocal Open Scope string_scope.\n\n")
+	pi := pkgs["client"]
+	if pi == nil {
+		return b.String()
+	}
+	q := func(s string) string { return "\"" + strings.ReplaceAll(s, "\"", "\"\"") + "\"" }
+	var names []string
+	for n := range pi.funcs {
+		if strings.HasPrefix(n, "Verif") || strings.Contains(n, ".Verif") {
+			continue
+		}
+		names = append(names, n)
+	}
+	sortStrings(names)
+	isDial := func(c *ast.CallExpr) bool {
+		se, ok := c.Fun.(*ast.SelectorExpr)
+		return ok && (se.Sel.Name == "Dial" || se.Sel.Name == "DialContext" || se.Sel.Name == "DialTimeout") && len(c.Args) > 0
+	}
+	var sites, writes []string
+	dials := map[string]bool{} // functions containing a dial call
+	for _, n := range names {
+		fd := pi.funcs[n]
+		if fd.Body == nil {
+			continue
+		}
+		ast.Inspect(fd.Body, func(nd ast.Node) bool {
+			switch x := nd.(type) {
+			case *ast.CallExpr:
+				if isDial(x) {
+					dials[fd.Name.Name] = true
+					sites = append(sites, "("+q(n)+", "+q(exprText(pi, x.Fun))+", "+q(exprText(pi, x.Args[len(x.Args)-1]))+")")
+				}
+			case *ast.AssignStmt:
+				for i, l := range x.Lhs {
+					if strings.HasSuffix(exprText(pi, l), "cfg.Server") {
+						r := "?"
+						if len(x.Rhs) == len(x.Lhs) {
+							r = exprText(pi, x.Rhs[i])
+						}
+						writes = append(writes, "("+q(n)+", "+q(r)+")")
+					}
+				}
+			}
+			return true
+		})
+	}
+	var seq []string
+	for _, n := range names {
+		fd := pi.funcs[n]
+		if fd.Body == nil {
+			continue
+		}
+		var addr *ast.IfStmt
+		for _, st := range fd.Body.List {
+			if ifs, ok := st.(*ast.IfStmt); ok && strings.Contains(exprText(pi, ifs.Cond), "hasPort(") {
+				addr = ifs
+			}
+		}
+		if addr == nil {
+			continue
+		}
+		ast.Inspect(fd.Body, func(nd ast.Node) bool {
+			switch x := nd.(type) {
+			case *ast.IfStmt:
+				if x == addr {
+					seq = append(seq, "("+q("addr")+", "+q(exprText(pi, x.Cond))+")")
+				}
+			case *ast.CallExpr:
+				if isDial(x) {
+					seq = append(seq, "("+q("dial")+", "+q(exprText(pi, x.Fun))+")")
+				} else if se, ok := x.Fun.(*ast.SelectorExpr); ok && dials[se.Sel.Name] {
+					seq = append(seq, "("+q("call")+", "+q(exprText(pi, x.Fun))+")")
+				} else if id, ok := x.Fun.(*ast.Ident); ok && dials[id.Name] {
+					seq = append(seq, "("+q("call")+", "+q(id.Name)+")")
+				}
+			}
+			return true
+		})
+	}
+	list := func(name, ty string, xs []string) {
+		fmt.Fprintf(&b, "Definition %s : list (%s) :=\n  [%s].\n\n", name, ty, strings.Join(xs, ";\n   "))
+	}
+	list("dial_sites_client", "string * string * string", sites)
+	list("server_writes_client", "string * string", writes)
+	list("dial_seq_client", "string * string", seq)
+	return b.String()
+}
